@@ -174,6 +174,25 @@ def conc_miri(prop, tier, nproc, cases_each):
     return procs
 
 
+# sequential monitors that are cheap enough to also run under Miri (thorough tier): cases per process
+SEQ_MIRI = {"C04": 1, "C05": 4, "C06": 2, "C07": 4, "C08": 16, "C12": 16, "C13": 4, "C18": 16}
+
+
+def seq_miri(prop, nproc, cases_each):
+    warm = subprocess.run(["cargo", "+nightly", "miri", "run", "-p", "seq", "--offline", "--", prop, "--cases", "0"], cwd=HARNESS, env=miri_env(0), capture_output=True, text=True)
+    if warm.returncode != 0:
+        os.makedirs(LOGS, exist_ok=True)
+        log = os.path.join(LOGS, "build-miri-seq.log")
+        open(log, "w").write(warm.stdout + warm.stderr)
+        raise Inconclusive("seq does not build/run under Miri against /repo's current tree, see %s" % log)
+    procs = []
+    for i in range(nproc):
+        ms = SEED * 1000 + i
+        cmd = ["cargo", "+nightly", "miri", "run", "-p", "seq", "--offline", "--", prop, "--seed", str(SEED), "--first", str(900_000_000 + i * cases_each), "--cases", str(cases_each)]
+        procs.append(Proc("%s-miriseq-%d" % (prop, i), cmd, env=miri_env(ms), cwd=HARNESS, kind="miri", stdout_part=True, timeout=7200))
+    return procs
+
+
 def seq_shards(prop, tier, total_cases, binary="seq", config="plain", shards=None, extra=()):
     build(config, binary)
     shards = shards or min(JOBS, max(1, total_cases // 50))
@@ -256,6 +275,8 @@ def plan(prop, tier):
     if prop in SEQ_CASES:
         qc, tc = SEQ_CASES[prop]
         procs = seq_shards(prop, tier, qc if q else tc)
+        if not q and prop in SEQ_MIRI:
+            procs += seq_miri(prop, 8, SEQ_MIRI[prop])
         if prop == "C04" and not q:
             d = os.path.join(PARTS, "c04dump")
             shutil.rmtree(d, ignore_errors=True)
@@ -316,6 +337,7 @@ ASSUMPTIONS = {
     "static-memcheck": [],
     "xbuild": ["C16: the two builds run the same seeded, clock-free, single-threaded scenario; error *messages* (which embed the Debug form of the model structs) are not compared"],
     "seq": ["sequential monitors: reference models are written from the property statements; 64-bit FNV collisions between unrelated inputs are outside the statements"],
+    "miri-seq": ["Miri (sequential monitors, thorough tier): undefined-behaviour interpreter over the same monitored workloads at a small case count"],
     "miri": ["Miri: weak-memory emulation and data-race detection as implemented by the installed nightly; -Zmiri-permissive-provenance because parking_lot casts integers to pointers"],
 }
 
@@ -378,7 +400,7 @@ def check(prop, tier):
             else:
                 inconclusive.append("%s: no result part (%s), log %s" % (p.name, res["error"] or "exit %s" % res["rc"], res["log"]))
             continue
-        eng = "miri" if p.kind == "miri" else part.get("engine", "?")
+        eng = ("miri" if part.get("engine") != "seq" else "miri-seq") if p.kind == "miri" else part.get("engine", "?")
         e = engines.setdefault(eng, {"processes": 0, "evaluations": 0, "wall_s": 0.0})
         e["processes"] += 1
         e["evaluations"] += part.get("evaluations", 0)
